@@ -41,8 +41,23 @@ int    g_opt_rv[8];        /* arbitrary answers */
 size_t g_opt_calls;
 size_t g_setopt_calls;
 /* ---- the object the caller's invariant says is registered under the id
- *      being looked up (see idmap.h: assumed clause of nni_id_get) ---- */
+ *      being looked up (nni_id_get model in env.h) ---- */
 void  *g_reg;
+size_t      g_idg_calls;   /* calls of nni_id_get */
+nni_id_map *g_idg_map;
+uint64_t    g_idg_id;
+/* ---- id allocator / id removal model (nni_id_alloc32, nni_id_remove: see env.h) ---- */
+size_t      g_ida_calls;   /* calls of nni_id_alloc32 */
+nni_id_map *g_ida_map;     /* map of the last call */
+void       *g_ida_val;     /* object registered by the last call */
+uint32_t    g_ida_issued;  /* id issued by the last successful call */
+bool        g_ida_fail;    /* input: the allocator refuses (NNG_ENOMEM: table growth failed or range exhausted) */
+uint32_t    g_ida_raw;     /* input: picks the issued id inside the map's range */
+size_t      g_idr_calls;   /* calls of nni_id_remove */
+nni_id_map *g_idr_map;
+uint64_t    g_idr_id;
+size_t      g_idr_at_free; /* value of g_free_calls when the id was removed */
+bool        g_idr_found;   /* input: the id was present */
 /* ---- shape selectors (free ghosts) ---- */
 bool   g_sole_a, g_sole_b, g_sole_c;
 size_t g_priv;             /* size of the protocol / transport private area */
